@@ -3,6 +3,7 @@
 package main
 
 import (
+	"golang.org/x/crypto/bcrypt"
 	"fmt"
 	"strings"
 	"sync"
@@ -48,6 +49,7 @@ type vfC20Op struct {
 }
 
 type vfC20Case struct {
+	Children int // goroutines the code under test started on its own (Mode A)
 	Waves      int
 	Ops        int
 	Reloads    int
@@ -56,13 +58,26 @@ type vfC20Case struct {
 	Flavour    string
 }
 
-func vfC20Versions() []*vfC20Version {
+// vfBcryptEntry: an htpasswd line with a bcrypt hash of minimal cost (the salt comes from the seeded crypto/rand).
+func vfBcryptEntry(user, pw string) string {
+	h, err := bcrypt.GenerateFromPassword([]byte(pw), bcrypt.MinCost)
+	if err != nil {
+		panic(err)
+	}
+	return user + ":" + string(h)
+}
+
+func vfC20Versions(useBcrypt bool) []*vfC20Version {
+	entry := vfSHAEntry
+	if useBcrypt {
+		entry = vfBcryptEntry
+	}
 	mk := func(name string, ht map[string]string, em []string) *vfC20Version {
 		v := &vfC20Version{Name: name, HT: ht, Emails: map[string]bool{}}
 		var lines []string
 		for _, u := range []string{"alice", "bob", "carol", "dave", "erin"} {
 			if pw, ok := ht[u]; ok {
-				lines = append(lines, vfSHAEntry(u, pw))
+				lines = append(lines, entry(u, pw))
 			}
 		}
 		v.HTText = strings.Join(lines, "\n") + "\n"
@@ -89,7 +104,7 @@ func vfC20Versions() []*vfC20Version {
 	vs = append(vs, empty, comment)
 	bad := &vfC20Version{Name: "malformed", HTText: "alice:" + "x" + ":extra-field\nbob\n", EmText: "\"unterminated,quote\nx@y\n"}
 	// parses as CSV but one entry is not a SHA / bcrypt hash: the whole version must be refused
-	partial := &vfC20Version{Name: "partially-valid", HTText: vfSHAEntry("erin", "pw5") + "\nalice:plaintext-password\n", EmText: "erin@example.com\n\"broken\n"}
+	partial := &vfC20Version{Name: "partially-valid", HTText: entry("erin", "pw5") + "\nalice:plaintext-password\n", EmText: "erin@example.com\n\"broken\n"}
 	return append(vs, bad, partial)
 }
 
@@ -104,7 +119,7 @@ func vfC20(w *vfWorld) {
 		cs.Flavour = "parallel-waves under the race detector"
 	}
 	w.sample = cs
-	versions := vfC20Versions()
+	versions := vfC20Versions(t.Prob("c20.bcrypt", 250)) // a quarter of the worlds use bcrypt entries (slow comparison outside the lock)
 	htFile := w.writeFile("htpasswd", versions[0].HTText)
 	emFile := w.writeFile("emails.txt", versions[0].EmText)
 	htv, err := basic.NewHTPasswdValidator(htFile)
